@@ -123,7 +123,9 @@ class Position
     HashKey _zobrist_hash;
 
     int32_t _history_counter;
-    uint64_t _history[MAX_PLIES];
+    // keys of all earlier positions; starts at MAX_PLIES entries and grows
+    // on demand, so that a game can be longer than that
+    std::vector<uint64_t> _history = std::vector<uint64_t>(MAX_PLIES);
 };
 
 std::ostream& operator<<(std::ostream& stream, const Position& position);
